@@ -1,15 +1,19 @@
 import Driver.Util
 import RxnModel.Model.KeyedState
 /-!
-Driver section for C03. Header: `M C03 <kgc>`.
+Driver section for C03. Header: `M C03 <kgc> <mode> <mem> <target> <small> <batch>` (only `kgc` and `batch` matter here).
+Every op line may carry ` ## <implementation output>` (trace validation); only `wm` reads it.
 
 Ops (token grammar; bytes in hex, `-` = empty):
 * `apply <subj> (ns <ns> (p <ek> <v> | d <ek>)*)*`      `ApplyMutations`                          → `ok`
-* `get <subj>` / `getmid <subj>`                         `GetState` (`getmid`: background commits land between the scan's two snapshots) → state
+* `get <subj>` / `getmid <subj>`                         `GetState`                                → state
 * `tput <subj> <t>` / `tdel <subj> <t>`                  timer store write-through                 → `ok`
-* `batch (fire <subj> <t>)* (ev <key>)* (res <key> (t <t>)* (ns <ns> (p .. | d ..)*)*)*`
-                                                         one `processEventBatch`                   → key states
-* `rot` / `wait` / `ckpt`                                background timing of the LSM: no effect on the map → `ok`
+* `batch (ev <key>)* (res <key> (t <t>)* (ns <ns> (p .. | d ..)*)*)*`   one `processEventBatch`    → key states
+* `wm <t> (res ..)*`      watermark: the due timers fire as TimerExpired events, in chunks of the batch size; which
+                          timer fires when is read from the implementation's output and checked against the model's
+                          set of due timers; the response answers the first invocation  → `<events>=><key states> | ..`
+* `ckpt` / `restart [new]`   DKV checkpoint / redeploy from the latest checkpoint                   → `ok`
+* `rot` / `wait`             background timing of the LSM: no effect on the map                     → `ok`
 * `prefixfree ..` / `inj ..` / `disjoint ..` / `decode ..`  theorem instances evaluated on the real encoders → `ok`
 -/
 namespace Driver.C03
@@ -17,7 +21,12 @@ open Rxn Driver Rxn.KeyedState
 
 structure St where
   kgc : Nat := 0
-  kv : KV := []
+  batch : Nat := 1
+  ops : OpState := {}
+  /-- timers in the DKV (mechanism bookkeeping for `wm`; what fires when is C10's subject) -/
+  pending : List (Bytes × Nat) := []
+  savedPending : List (Bytes × Nat) := []
+  wm : Option Nat := none
 
 def showEntries (es : List (Bytes × Bytes)) : String :=
   joinWith "," (es.map fun e => toHex e.1 ++ "=" ++ toHex e.2)
@@ -49,10 +58,6 @@ partial def parseResults : List String → List KeyResult × List String
     ({ key := hexOr key, timers := ts, muts := nss } :: krs, r'')
   | rest => ([], rest)
 
-def parseFired : List String → List (Bytes × Nat) × List String
-  | "fire" :: k :: t :: rest => let (fs, r) := parseFired rest; ((hexOr k, natOr t) :: fs, r)
-  | rest => ([], rest)
-
 def parseEvents : List String → List Bytes × List String
   | "ev" :: k :: rest => let (ks, r) := parseEvents rest; (hexOr k :: ks, r)
   | rest => ([], rest)
@@ -60,25 +65,92 @@ def parseEvents : List String → List Bytes × List String
 def showKeyStates (ks : List (Bytes × List NsState)) : String :=
   if ks.isEmpty then "none" else joinWith ";" (ks.map fun p => toHex p.1 ++ ":" ++ showState p.2)
 
-def step (st : St) : List String → St × String
+/-- op tokens and the implementation's output tokens -/
+def splitFeed : List String → List String × List String
+  | [] => ([], [])
+  | "##" :: rest => ([], rest)
+  | w :: rest => let (a, b) := splitFeed rest; (w :: a, b)
+
+/-- `SetTimer`'s guard: only timers after the composite watermark are stored -/
+def guardOK (wm : Option Nat) (t : Nat) : Bool :=
+  match wm with
+  | none => true
+  | some w => w < t
+
+def applyGuard (wm : Option Nat) (res : List KeyResult) : List KeyResult :=
+  res.map fun kr => { kr with timers := kr.timers.filter (guardOK wm) }
+
+def addPending (p : List (Bytes × Nat)) (res : List KeyResult) : List (Bytes × Nat) :=
+  res.foldl (fun p kr => kr.timers.foldl (fun p t => if p.contains (kr.key, t) then p else p ++ [(kr.key, t)]) p) p
+
+/-- the fired events of each invocation as the implementation reports them: `k@t,k@t=>…` separated by `|` -/
+def parseFiring (impl : List String) : List (List (Bytes × Nat)) :=
+  (impl.filter (fun w => w ≠ "|" && w ≠ "none")).map fun w =>
+    let evs := (w.splitOn "=>").headD ""
+    (evs.splitOn ",").filterMap fun e =>
+      match e.splitOn "@" with
+      | [k, t] => some (hexOr k, natOr t)
+      | _ => none
+
+def showFired (c : List (Bytes × Nat)) : String := joinWith "," (c.map fun e => toHex e.1 ++ "@" ++ toString e.2)
+
+/-- every chunk but the last is a full batch; the last holds between 1 and `b` events -/
+def chunksOK (b : Nat) : List (List (Bytes × Nat)) → Bool
+  | [] => true
+  | [c] => 0 < c.length && c.length ≤ b
+  | c :: cs => c.length == b && chunksOK b cs
+
+def runChunks (kgc : Nat) : OpState → List (List (Bytes × Nat)) → List KeyResult → OpState × List String
+  | s, [], _ => (s, [])
+  | s, c :: cs, res =>
+    let (s', obs) := opStep kgc s (.batch { fired := c, events := c.map (·.1), resp := res })
+    let (s'', outs) := runChunks kgc s' cs []
+    (s'', (showFired c ++ "=>" ++ showKeyStates (obs.getD [])) :: outs)
+
+def stepKV (st : St) (a : Act) : St := { st with ops := { st.ops with kv := KeyedState.step st.kgc st.ops.kv a } }
+
+def step (st : St) (line : List String) : St × String :=
+  let (ws, impl) := splitFeed line
+  match ws with
   | "apply" :: subj :: rest =>
     let (nss, r) := parseNss rest
-    if r.isEmpty then ({ st with kv := KeyedState.step st.kgc st.kv (.apply (hexOr subj) nss) }, "ok") else (st, "bad-op")
-  | ["get", subj] => (st, showState (getState st.kgc st.kv (hexOr subj)))
-  | ["getmid", subj] => (st, showState (getState st.kgc st.kv (hexOr subj)))
-  | ["tput", subj, t] => ({ st with kv := KeyedState.step st.kgc st.kv (.timerPut (hexOr subj) (natOr t)) }, "ok")
-  | ["tdel", subj, t] => ({ st with kv := KeyedState.step st.kgc st.kv (.timerDel (hexOr subj) (natOr t)) }, "ok")
+    if r.isEmpty then (stepKV st (.apply (hexOr subj) nss), "ok") else (st, "bad-op")
+  | ["get", subj] => (st, showState (getState st.kgc st.ops.kv (hexOr subj)))
+  | ["getmid", subj] => (st, showState (getState st.kgc st.ops.kv (hexOr subj)))
+  | ["tput", subj, t] => (stepKV st (.timerPut (hexOr subj) (natOr t)), "ok")
+  | ["tdel", subj, t] => (stepKV st (.timerDel (hexOr subj) (natOr t)), "ok")
   | "batch" :: rest =>
-    let (fired, r0) := parseFired rest
-    let (evs, r1) := parseEvents r0
+    let (evs, r1) := parseEvents rest
     let (res, r2) := parseResults r1
     if r2.isEmpty then
-      let (kv', states) := processBatch st.kgc st.kv { fired := fired, events := evs, resp := res }
-      ({ st with kv := kv' }, showKeyStates states)
+      let res := applyGuard st.wm res
+      let (ops', obs) := opStep st.kgc st.ops (.batch { fired := [], events := evs, resp := res })
+      ({ st with ops := ops', pending := addPending st.pending res }, showKeyStates (obs.getD []))
     else (st, "bad-op")
+  | "wm" :: t :: rest =>
+    let (res, r2) := parseResults rest
+    if r2.isEmpty then
+      let T := natOr t
+      let res := applyGuard (some T) res
+      let due := st.pending.filter (fun p => p.2 ≤ T)
+      let chunks := parseFiring impl
+      let fired := chunks.flatten
+      let valid := fired.length == due.length && fired.all due.contains && fired.eraseDups.length == fired.length &&
+        chunksOK st.batch chunks
+      if !valid then ({ st with wm := some T }, "bad-firing due=" ++ showFired due)
+      else if chunks.isEmpty then ({ st with wm := some T }, "none")
+      else
+        let (ops', outs) := runChunks st.kgc st.ops chunks res
+        let rest := st.pending.filter (fun p => !(p.2 ≤ T))
+        ({ st with ops := ops', wm := some T, pending := addPending rest res }, joinWith " | " outs)
+    else (st, "bad-op")
+  | ["ckpt"] => ({ st with ops := (opStep st.kgc st.ops .ckpt).1, savedPending := st.pending }, "ok")
+  | "restart" :: _ =>
+    match st.ops.saved with
+    | none => (st, "no-checkpoint")
+    | some _ => ({ st with ops := (opStep st.kgc st.ops .restore).1, pending := st.savedPending, wm := none }, "ok")
   | ["rot"] => (st, "ok")
   | ["wait"] => (st, "ok")
-  | ["ckpt"] => (st, "ok")
   | ["prefixfree", _, _, _, _] => (st, "ok")      -- C03.subject_prefix_free
   | ["inj", _, _, _, _, _, _] => (st, "ok")       -- C03.dbkey_injective
   | ["disjoint", _, _, _] => (st, "ok")           -- C03.state_timer_disjoint
@@ -88,9 +160,13 @@ def step (st : St) : List String → St × String
   | _ => (st, "bad-op")
 
 def handle (lines : Array String) (i : Nat) (out : Array String) : Nat × Array String :=
-  let kgc := match (if i = 0 then [] else words (lines[i - 1]!)) with
+  let hdr := if i = 0 then [] else words (lines[i - 1]!)
+  let kgc := match hdr with
     | _ :: _ :: k :: _ => natOr k
     | _ => 256
-  runLines step { kgc := kgc } lines i out
+  let b := match hdr with
+    | _ :: _ :: _ :: _ :: _ :: _ :: _ :: b :: _ => natOr b
+    | _ => 8
+  runLines step { kgc := kgc, batch := b } lines i out
 
 end Driver.C03
